@@ -26,11 +26,17 @@ def resource_exhaustion_on_both(b, ref):
     resources at different depths"""
     bc = [s["c"] for s in b.get("steps", [])]
     rc = [s["c"] for s in ref.get("steps", [])]
+    nref = len(ref.get("trace") or [])
+    if any(c == "throw:{}" for c in rc) and nref >= 2000 and nref >= len(b.get("trace") or []):
+        # V8 ran out of stack (its RangeError belongs to the embedder's realm and shows as a plain object) after
+        # thousands of lines: the program does not terminate by specification, whatever boa makes of it (boa cuts a
+        # re-entrant ToPrimitive on the same object short, see DESIGN 8.5)
+        return True
     if not any(c in ("limit:recursion", "limit:stack") for c in bc):
         return False
     if not any(c.startswith("throw:") for c in rc):
         return False
-    return len(ref.get("trace") or []) >= len(b.get("trace") or [])
+    return nref >= len(b.get("trace") or [])
 
 
 def known_reproducers(chk, eng):
